@@ -153,6 +153,16 @@ def h_c09(eng):
     _report(eng, r[0] == "ok" and "\\deca\\de" not in r[1], "siunitx:plain-unit-name-cut-into-prefix-and-rest")
 
 
+def h_c10(eng):
+    # (round 6) ill-formed lines are refused: an alias line without an alias, a modifier given twice
+    r_ = pint.UnitRegistry()
+    a = _outcome(lambda: r_.define("@alias meter = "))
+    _report(eng, a[0] != "ok" and "" not in r_._units, "alias-line-without-an-alias:registers-the-empty-name")
+    r2 = pint.UnitRegistry()
+    b = _outcome(lambda: r2.define("degZ = 2 * kelvin; offset: 1; offset: 2"))
+    _report(eng, b[0] != "ok", "modifier-given-twice:accepted-last-one-wins")
+
+
 def h_c13(eng):
     # the unit order of a root-unit result does not depend on who asked first
     used = pint.UnitRegistry()
